@@ -350,3 +350,15 @@ def run(facts, rep, ctx):
     from . import round4
     round4.ri5(facts, rep, ['alignment::sparse::lcskpp', 'alignment::sparse::sdpkpp'])
 
+
+
+_run_before_round5 = run
+
+
+def run(facts, rep, ctx):
+    """rules added after the fourth seeding round (rules/round5.py)"""
+    _run_before_round5(facts, rep, ctx)
+    from . import round5
+    from . import round3, round4
+    round3.fw1(facts, rep)
+    round4.fw2(facts, rep)
